@@ -184,7 +184,53 @@ def _partial_target(name: str, *args: Any) -> Any:
     return dispatch(name, args)
 
 
+def operator_override(name: str) -> Callable[..., Any]:
+    """An application-supplied replacement for a built-in operator function."""
+    from celpy import celtypes
+    from celpy.evaluation import CELEvalError
+
+    if name == "_+_":
+        def add(a: Any, b: Any) -> Any:
+            for x in (a, b):
+                if isinstance(x, CELEvalError):
+                    return x  # operators get their operands as they are; an error stays an error
+            HISTORY.append(["_+_", [_canon_arg(a), _canon_arg(b)]])
+            return celtypes.IntType(int(a) + int(b) + 1000)
+        return add
+    if name == "_||_":
+        return lambda a, b: celtypes.logical_or(a, b)
+    if name == "_&&_":
+        return lambda a, b: celtypes.logical_and(a, b)
+    if name == "_?_:_":
+        return lambda c, a, b: celtypes.logical_condition(c, a, b)
+    raise ValueError(name)
+
+
+def celpy_visible_def(name: str) -> Callable[..., Any]:
+    """A module-level def in a module that celpy itself can see, like the functions of
+    celpy.c7nlib that applications pass as functions=celpy.c7nlib.FUNCTIONS: the (fresh, throw-away)
+    celpy package gets a sub-module `celpy.hostext` holding the stub.  The CompiledRunner can spell
+    such a function as module.qualname text instead of going through the activation."""
+    import sys
+    import types
+
+    celpy = sys.modules["celpy"]
+    mod = sys.modules.get("celpy.hostext")
+    if mod is None or getattr(celpy, "hostext", None) is not mod:
+        mod = types.ModuleType("celpy.hostext")
+        mod.__dict__["dispatch"] = dispatch
+        sys.modules["celpy.hostext"] = mod
+        celpy.hostext = mod  # type: ignore[attr-defined]
+    if name not in mod.__dict__:
+        src = f"def {name}(*args):\n    return dispatch({name!r}, args)\n"
+        exec(compile(src, "<celpy.hostext>", "exec"), mod.__dict__)
+        mod.__dict__[name].__module__ = "celpy.hostext"
+    return mod.__dict__[name]
+
+
 def make_callable(kind: str, name: str) -> Callable[..., Any]:
+    if kind == "celpy_visible_def":
+        return celpy_visible_def(name)
     if kind == "module_def":
         return MODULE_DEFS[name]
     if kind == "nested_def":
